@@ -1197,6 +1197,14 @@ class Folder:
             opn = _OPERATOR_FUNCS[f.attr]
             syn = ast.Compare(left=n.args[0], ops=[opn()], comparators=[n.args[1]]) if issubclass(opn, ast.cmpop) else ast.BinOp(left=n.args[0], op=opn(), right=n.args[1])
             return self.ev(ast.fix_missing_locations(ast.copy_location(syn, n)), env)
+        if isinstance(f, ast.Name) and f.id == "next" and "next" not in env and n.args and isinstance(n.args[0], (ast.GeneratorExp, ast.ListComp)) and len(n.args) <= 2 and not n.keywords:
+            seq_ = self.ev(n.args[0], env)
+            if isinstance(seq_, (list, tuple)):
+                if seq_:
+                    return seq_[0]
+                if len(n.args) == 2:
+                    return self.ev(n.args[1], env)
+                raise Raised("StopIteration", n)
         if not isinstance(f, (ast.Name, ast.Attribute)):
             try:
                 fv_ = self.ev(f, env)
@@ -1456,15 +1464,9 @@ class Folder:
         raise Refuse("zip over non-literal")
 
     def c_next(self, a, kw):
-        """next(sequence-or-generator folded to a list[, default]): first element, the default, or StopIteration."""
-        it = a[0].data if isinstance(a[0], Arr) else a[0]
-        if not isinstance(it, (list, tuple)):
-            raise Refuse("next of a non-literal iterator")
-        if it:
-            return it[0]
-        if len(a) > 1:
-            return a[1]
-        raise Raised("StopIteration")
+        # generator expressions are folded to lists, which have no position: next() of a *name* would leave the first element in place for the
+        # loop that follows.  Only next(<generator expression>[, default]) -- a fresh iterator that is dropped afterwards -- is modelled (e_Call).
+        raise HardRefuse("next() of an iterator held in a variable: the folder's lists do not model consumption")
 
     def c_iter(self, a, kw):
         it = a[0].data if isinstance(a[0], Arr) else a[0]
